@@ -1,8 +1,10 @@
 import TakVerif.Impl.PN
+import TakVerif.Impl.Evaluate
 import Std.Data.HashMap
 
-/-! Mirror of `prove/dfpn.go` (depth-first proof-number search with a hash table) and of
-`ai.CountThreats` (`ai/evaluate.go`), which `DFPNSolver.solve` trusts as a proof of an immediate win.
+/-! Mirror of `prove/dfpn.go` (depth-first proof-number search with a hash table).  `DFPNSolver.solve`
+trusts `ai.CountThreats` (model: `Tak.countThreats`, `Impl/Evaluate.lean`; its soundness is C19) as a
+proof of an immediate win.
 
 Generic over the game like `Impl/PN.lean`, plus `hash : S → UInt64` (`Position.Hash`), the
 immediate-win oracle `threats : S → Bool × Bool` (white, black have a winning move according to
@@ -253,66 +255,9 @@ def prove (fuel : Nat) (att : Color) (entries : Nat) (g : S) : Except Err (Resul
          { st.stats with work := work })
 end
 
-/-! ### `ai.CountThreats` -/
-
-structure Threats where
-  wp : Nat
-  wt : Nat
-  bp : Nat
-  bt : Nat
-deriving Repr, DecidableEq, Inhabited
-
-/-- the bits of `s` from the lowest, as single-bit words (`for s != 0 { next := s & (s-1); … }`) -/
-def singleBits : Nat → W → List W
-  | 0, _ => []
-  | n+1, s => if s == 0#64 then [] else
-    let next := s &&& (s - 1#64)
-    (s &&& ~~~next) :: singleBits n next
-
-/-- `countOne` of `CountThreats` -/
-def countOne (p : Pos) (gs : List W) (pieces : W) : Nat × Nat :=
-  let c := p.c
-  let empty := c.Mask &&& ~~~(p.white ||| p.black)
-  let noBlock := c.Mask &&& ~~~(p.standing ||| p.caps)
-  let singles := gs.foldl (fun s g => s &&& ~~~g) pieces
-  let rec go (i : Nat) (before : List W) : List W → Nat → Nat → Nat × Nat
-    | [], place, threat => (place, threat)
-    | g :: rest, place, threat =>
-      if g &&& c.Edge == 0#64 then go (i+1) (before ++ [g]) rest place threat else
-      let slides := Gen.grow c noBlock (pieces &&& ~~~g)
-      let (pmap, tmap) : W × W := (0#64, 0#64)
-      let (pmap, tmap) := if g &&& c.L != 0#64 then
-        (pmap ||| ((g >>> 1) &&& empty &&& c.R), tmap ||| ((g >>> 1) &&& slides &&& c.R)) else (pmap, tmap)
-      let (pmap, tmap) := if g &&& c.R != 0#64 then
-        (pmap ||| ((g <<< 1) &&& empty &&& c.L), tmap ||| ((g <<< 1) &&& slides &&& c.L)) else (pmap, tmap)
-      let (pmap, tmap) := if g &&& c.T != 0#64 then
-        (pmap ||| ((g >>> c.Size) &&& empty &&& c.B), tmap ||| ((g >>> c.Size) &&& slides &&& c.B)) else (pmap, tmap)
-      let (pmap, tmap) := if g &&& c.B != 0#64 then
-        (pmap ||| ((g <<< c.Size) &&& empty &&& c.T), tmap ||| ((g <<< c.Size) &&& slides &&& c.T)) else (pmap, tmap)
-      -- the earlier groups, then the single pieces
-      let others := before ++ singleBits 64 singles
-      let (pmap, tmap) := others.foldl (fun (pt : W × W) other =>
-        if !(((g &&& c.L != 0#64) && (other &&& c.R != 0#64)) ||
-             ((g &&& c.R != 0#64) && (other &&& c.L != 0#64)) ||
-             ((g &&& c.B != 0#64) && (other &&& c.T != 0#64)) ||
-             ((g &&& c.T != 0#64) && (other &&& c.B != 0#64))) then pt
-        else
-          let slides := Gen.grow c noBlock (pieces &&& ~~~(g ||| other))
-          let isect := Gen.grow c c.Mask g &&& Gen.grow c c.Mask other
-          (pt.1 ||| (isect &&& empty), pt.2 ||| (isect &&& slides))) (pmap, tmap)
-      go (i+1) (before ++ [g]) rest (place + popcount pmap) (threat + popcount tmap)
-  go 0 [] gs 0 0
-
-/-- `ai.CountThreats(c, p)` with `c = bitboard.Precompute(p.Size())` -/
-def countThreats (p : Pos) : Threats :=
-  let road := ~~~(p.standing ||| p.caps)
-  let (wp, wt) := countOne p p.wgroups (p.white &&& road)
-  let (bp, bt) := countOne p p.bgroups (p.black &&& road)
-  { wp := wp, wt := wt, bp := bp, bt := bt }
-
 /-- what `solve` reads: white has a threat, black has a threat -/
 def takThreats (p : Pos) : Bool × Bool :=
-  let t := countThreats p
+  let t := Tak.countThreats p.c p      -- `ai.CountThreats(&d.c, p)` with `d.c = bitboard.Precompute(p.Size())`
   (t.wp + t.wt > 0, t.bp + t.bt > 0)
 
 /-- `Position.Hash()` as a machine word -/
